@@ -289,11 +289,12 @@ def drive_accelerated_advection_steps(m, tier, part=0):
                     vals = big[1:-1]
                     m.get_lagrange_vals(i, sh, vals, q, ts, kn, deg, cq, cu)
                     yield ('get_lagrange_vals', cu, tuple(shifts), i), big.copy()
-        f = np.ascontiguousarray(_dense(nq, nz, seed=2))
-        co = _dense(6, seed=4) * 0.1
-        vals = np.ascontiguousarray(np.array([[[math.sin(i + 2 * j + 3 * k) for k in range(6)] for j in range(nq)] for i in range(nz)]))
-        m.flux_advection(nq, nz, f, co, vals)
-        yield ('flux_advection',), f
+        for npt in (6, 2, 3, 4, 5, 7, 8, 9):            # stencil lengths: zDegree is a constructor argument, even and odd
+            f = np.ascontiguousarray(_dense(nq, nz, seed=2))
+            co = _dense(npt, seed=4) * 0.1 + 0.05
+            vals = np.ascontiguousarray(np.array([[[math.sin(i + 2 * j + 3 * k) for k in range(npt)] for j in range(nq)] for i in range(nz)]))
+            m.flux_advection(nq, nz, f, co, vals)
+            yield ('flux_advection', npt), f
     elif part == 1:
         for cu in (True, False):
             if cu:
